@@ -7,6 +7,9 @@ impl CountMinRow {
     pub(crate) fn verif_from_bytes(bytes: alloc::vec::Vec<u8>) -> Self {
         CountMinRow(bytes)
     }
+    pub(crate) fn verif_set_byte(&mut self, i: usize, b: u8) {
+        self.0[i] = b;
+    }
     pub(crate) fn verif_bytes(&self) -> &[u8] {
         &self.0
     }
